@@ -205,6 +205,13 @@ func (sr *syncRemote) handle(msg p2p.Msg) {
 				}
 				sr.send(6, []*nom.DetailedMomentum{w})
 			}
+		case "tampered-signature":
+			if len(good) > 0 {
+				w := good[0]
+				w.Momentum.Signature = append([]byte{}, w.Momentum.Signature...)
+				w.Momentum.Signature[5] ^= 0x40 // the hash field is left as it is: the momentum still looks like the one asked for
+				sr.send(6, []*nom.DetailedMomentum{w})
+			}
 		case "duplicated":
 			if len(good) > 0 {
 				sr.send(6, append([]*nom.DetailedMomentum{good[0], good[0]}, good...))
